@@ -57,6 +57,19 @@ DESC = {
  "C17-3": "`wien2k._distribute_forces`: forces of dependent atoms rotated with R instead of Rᵀ",
  "C19-3": "`RandomDisplacements`: sign of the phase that turns D-type into C-type eigenvectors",
  "C20-3": "`QHA._set_thermal_expansion`: central difference divided by 2·(T[i+1] − T[i])",
+ "C01-4": "`_solve_force_constants_svd`: every 3×3 block of the fitted rows comes out transposed",
+ "C03-4": "`ShortestPairs._transform_cell_basis`: positions taken to the reduced basis with the inverse transpose",
+ "C04-4": "`SNF3x3._first`: `.any()` for `.all()` in the first-column elimination",
+ "C05-4": "`Primitive._get_smallest_vectors`: vectors converted to the primitive basis with the transposed matrix",
+ "C06-4": "`DynmatToForceConstants._sum_q` (Python path): phase sign and block indices both flipped (blocks transposed)",
+ "C09-4": "`_calculate_thermal_property`: q-point weight dropped on the branch that masks cut modes",
+ "C13-4": "`multiply_matrix_vector_dl3` (C): micro-zone lattice read by rows when choosing the shortest main diagonal",
+ "C14-4": "`IterMesh.__init__`: `factor` not forwarded",
+ "C15-4": "`_set_dynamical_matrix`: group-velocity helper not rebuilt after a state change",
+ "C16-4": "yaml type-1 dataset: a supercell energy of exactly 0.0 is not written",
+ "C17-4": "`write_magnetic_moments`: moments scattered instead of gathered through the species-grouping permutation",
+ "C19-4": "`RandomDisplacements.run`: two generators made from the same seed (duplicated variates)",
+ "C20-4": "`PhonopyQHA.__init__`: `eos` not forwarded to the static `BulkModulus` fit",
 }
 rows = []
 for d in sorted(glob.glob('/verif/seeded/C*')):
